@@ -278,8 +278,13 @@ def judge_1to2(case):
   chk("round-trip", "no virtual lines written", [],
       [x for x in back if "GFAPY_virtual_line" in x])
   if proper:
-    src = [x for x in lines if x[0] in "SLCP"]
-    bk = [x for x in back if x[0] in "SLCP"]
+    # the order of the records is free: paired by record type and identifier
+    def okey(x):
+      f, tg = split(x, "gfa1")
+      ident = tag(tg, "ID") if f[0] in "LC" else f[1]
+      return ("SLCP".index(f[0]), str(ident), x if ident is None else "")
+    src = sorted((x for x in lines if x[0] in "SLCP"), key=okey)
+    bk = sorted((x for x in back if x[0] in "SLCP"), key=okey)
     chk("round-trip", "record types", [x[0] for x in src],
         [x[0] for x in bk])
     if len(src) == len(bk):
@@ -611,13 +616,50 @@ def cases_1to2_paths(quick):
               continue
             pl = T(("P", "p", ",".join(a + b for a, b in steps), ovf,
                     "zz:Z:q"))
-            yield {"dir": "1to2", "family": "P",
-                   "cell": "{} {} stored={} overlaps={}".format(
-                       ",".join(a + b for a, b in steps),
-                       "circular" if circular else "linear",
-                       "".join(map(str, formsel)) or "-", pov),
+            cell = "{} {} stored={} overlaps={}".format(
+                ",".join(a + b for a, b in steps),
+                "circular" if circular else "linear",
+                "".join(map(str, formsel)) or "-", pov)
+            yield {"dir": "1to2", "family": "P", "cell": cell,
                    "cigar": "-", "lines": segs + ll + [pl],
                    "meta": {"stored": {"p": sfs}}}
+            if n == 1:
+              continue
+            # the same with the path arriving BEFORE its links (placeholder
+            # links, replaced later), and together with the path that walks
+            # the same links in the opposite direction
+            flip = {"+": "-", "-": "+"}
+            rsteps = [(a, flip[b]) for a, b in reversed(steps)]
+            rwalk = rsteps + ([rsteps[0]] if circular else [])
+            rneed = [(rwalk[i][0], rwalk[i][1], rwalk[i + 1][0],
+                      rwalk[i + 1][1]) for i in range(len(rwalk) - 1)]
+            sfs2, povs2 = [], []
+            for e in rneed:
+              for x, st in zip(edges, stored):
+                if R.link_same_end_pair(e + ("*",), x + ("*",)):
+                  sfs2.append(list(st))
+                  povs2.append(st[4] if tuple(st[:4]) == e
+                               else R.cigar_complement(st[4]))
+                  break
+            if len(sfs2) != len(rneed):
+              continue
+            if pov == "*":
+              ovf2 = ",".join(["*"] * n) if circular else "*"
+            else:
+              ovf2 = ",".join(povs2)
+            pl2 = T(("P", "q", ",".join(a + b for a, b in rsteps), ovf2))
+            yield {"dir": "1to2", "family": "P",
+                   "cell": cell + " path-first", "cigar": "-",
+                   "lines": segs + [pl] + ll,
+                   "meta": {"stored": {"p": sfs}}}
+            for tag_, order in (("both,links-first", segs + ll + [pl, pl2]),
+                                ("both,paths-first", segs + [pl, pl2] + ll),
+                                ("both,reverse-first", [pl2, pl] + ll + segs)):
+              if quick and tag_ == "both,links-first":
+                continue
+              yield {"dir": "1to2", "family": "P",
+                     "cell": cell + " " + tag_, "cigar": "-", "lines": order,
+                     "meta": {"stored": {"p": sfs, "q": sfs2}}}
 
 
 def consistent_cigar(r, q):
